@@ -156,7 +156,12 @@ def _candidates(a, k, allow_scalars):
 def _apply(a, k, cand):
     where, key, kind = cand
     v = (a[key] if where == 'a' else k[key])
-    w = _variant(v, kind)
+    try:
+        if _is_num_seq(v) and not np.all(np.isfinite(np.asarray(v, dtype=float))):
+            return None
+        w = _variant(v, kind)
+    except Exception:  # noqa  (building a variant must never disturb the call the module asked for)
+        return None
     if w is None:
         return None
     if where == 'a':
@@ -294,7 +299,10 @@ def _wrap_function(orig, qual):
             rng = st.rng
             if rng.random() >= P_PROBE:
                 return orig(*a, **k)
-            cands = _candidates(a, k, allow_scalars=False)
+            try:
+                cands = _candidates(a, k, allow_scalars=False)
+            except Exception:  # noqa
+                cands = []
             if not cands:
                 return orig(*a, **k)
             sibs = _siblings_of(orig) if a and sum(_size(v) for v in a if _is_num_seq(v)) <= 20000 else []
@@ -348,7 +356,10 @@ def _wrap_method(orig, qual):
             rng = st.rng
             if rng.random() >= P_PROBE:
                 return orig(self, *a, **k)
-            cands = _candidates(a, k, allow_scalars=True)
+            try:
+                cands = _candidates(a, k, allow_scalars=True)
+            except Exception:  # noqa
+                cands = []
             if not cands:
                 return orig(self, *a, **k)
             cand = rng.choice(cands)
